@@ -9,6 +9,8 @@
 (***************************************************************************)
 EXTENDS Lru, TLC
 Clause(ok, name) == IF ok THEN {} ELSE {name}
+\* (without a scheme, 'localhost//a' would read as a protocol-like prefix: leading empty segments only with a scheme)
+Sensible(scheme, path) == scheme # <<>> \/ ~StartsWith(path, <<47, 47>>)
 Dims == <<LD.scheme, LD.userinfo, LD.host, LD.port, LD.path, LD.query, LD.frag>>
 Pick(f) == FlattenSeq([i \in 1..7 |-> Dims[i][(f[i] % Len(Dims[i])) + 1]])
 \* observed: lru = url_to_lru(u), stems = lru_stems(u), back1 = lru_to_url(lru), back2 = lru_to_url(stems),
@@ -26,7 +28,8 @@ VARIABLES url, sa, stage, reg
 vars == <<url, sa, stage, reg>>
 Init == /\ \E a \in 1..Len(LD.scheme), b \in 1..Len(LD.userinfo), c \in 1..Len(LD.host), d \in 1..Len(LD.port),
               e \in 1..Len(LD.path), f \in 1..Len(LD.query), g \in 1..Len(LD.frag) :
-              url = LD.scheme[a] \o LD.userinfo[b] \o LD.host[c] \o LD.port[d] \o LD.path[e] \o LD.query[f] \o LD.frag[g]
+              /\ Sensible(LD.scheme[a], LD.path[e])
+              /\ url = LD.scheme[a] \o LD.userinfo[b] \o LD.host[c] \o LD.port[d] \o LD.path[e] \o LD.query[f] \o LD.frag[g]
         /\ sa \in BOOLEAN /\ stage = 0 /\ reg = <<>>
 ToStems == stage = 0 /\ reg' = LruStems(url, sa) /\ stage' = 1 /\ UNCHANGED <<url, sa>>
 Ser == stage = 1 /\ reg' = <<reg, LruSer(reg)>> /\ stage' = 2 /\ UNCHANGED <<url, sa>>
